@@ -59,6 +59,7 @@ var c04Queries = []string{
 	`{ nodes(n:3, as:"A") { ... on A { u(as:"B") { ... on B { id } } } } a { u(as:"B") { ... on B { id bOnly } } } u(as:"A") { ... on A { u(as:"B") { ... on B { name } } } } }`,
 	`query($no:Boolean = false, $yes:Boolean = true){ ... @include(if:$no) { ...G x3 } ... @skip(if:$yes) { ...G } ...H @skip(if:$no) x1 } fragment G on Query { x2 leafy { sNN s } } fragment H on Query { x4 ... @include(if:$no) { ...G } }`,
 	`{ echo(i:1, s:"k") ... @skip(if:true) { x1 leafy { sNN } } ... @include(if:true) { x2 } a { ... on A @skip(if:true) { aOnly } ... on Node @include(if:true) { id } items(n:2) { n } } }`,
+	`{ nodes(n:3) { meta { s } ... on A { meta { i } } ... on C { meta { f sNN } } } a { ...M } c { ...M } b { ...M } } fragment M on Node { meta { s } ... on A { meta { i } } ... on C { meta { b } } }`,
 	`mutation { m1(v:1) { id nn { sNN } } s1(v:2) m2(v:3) { nodes(n:2) { id } } }`,
 	`mutation { deep { dNN { vNN } v } node(as:"B") { id ... on B { nn { s } } } s2(v:1) }`,
 }
